@@ -14,3 +14,7 @@ G('tc.dt_tadd_s', 'time-core', 'dt_tadd_s', TP, ins=T_IN + [('int', 'in_durs'), 
   ret='struct dt_t_s', replace=['divrem'], solvers=['cadical', 'cvc5'], sweep=SW)
 G('tc.dt_tdiff_s', 'time-core', 'dt_tdiff_s', TP, ins=T_IN + T2_IN, setup=T_SET + T2_SET, call='dt_tdiff_s(t, t2)', ret='int', sweep=SW, solvers=['cadical', 'cvc5', 'z3'])
 G('tc.dt_tcmp', 'time-core', 'dt_tcmp', TP, ins=T_IN + T2_IN, setup=T_SET + T2_SET, call='dt_tcmp(t, t2)', ret='int', sweep=SW, solvers=['cadical', 'cvc5'])
+
+# C09: 12-hour clock round trip through the real %I / %p printers, the real AM/PM parser and __guess_ttyp
+G('tc.L_rt_ampm', 'time-core', 'L_rt_ampm', ['C09'], ins=[('unsigned', 'in_h'), ('unsigned', 'in_cap')], call='L_rt_ampm(in_h, in_cap)', pre='1', post='1', direct=True, must=['L_rt_ampm'],
+  native=False, unwind=14, timeout=600)
